@@ -91,11 +91,57 @@ static int replay_flight()
 	return bad ? 3 : 0;
 }
 
+// [C05.fresh]: data received but not read on one connection must not appear on the next connection of the same socket object
+static int replay_fresh()
+{
+	default_config cfg;
+	simulation sim(cfg);
+	asio::io_context srv(sim, asio::ip::make_address_v4("50.0.0.1")), cli(sim, asio::ip::make_address_v4("50.0.0.2"));
+	asio::ip::tcp::acceptor acc(srv);
+	acc.open(asio::ip::tcp::v4());
+	acc.bind(asio::ip::tcp::endpoint(asio::ip::address_v4::any(), 4000));
+	acc.listen(10);
+	asio::ip::tcp::socket s1(srv), s2(srv), c(cli);
+	std::vector<char> old_data(2900, 'O'), new_data(10, 'N'), rbuf(10000);
+	std::string got;
+	int phase = 0;
+	asio::high_resolution_timer t(cli);
+	acc.async_accept(s1, [&](boost::system::error_code const& e) {
+		if (e) return;
+		s1.async_write_some(asio::buffer(old_data), [](boost::system::error_code const&, std::size_t) {});
+	});
+	c.async_connect(asio::ip::tcp::endpoint(asio::ip::make_address_v4("50.0.0.1"), 4000), [&](boost::system::error_code const& e) {
+		if (e) return;
+		// let the server's data arrive, do not read it, then close and reuse the socket object
+		t.expires_after(ch::seconds(2));
+		t.async_wait([&](boost::system::error_code const&) {
+			boost::system::error_code ec; c.close(ec);
+			acc.async_accept(s2, [&](boost::system::error_code const& e2) {
+				if (e2) return;
+				s2.async_write_some(asio::buffer(new_data), [](boost::system::error_code const&, std::size_t) {});
+			});
+			c.async_connect(asio::ip::tcp::endpoint(asio::ip::make_address_v4("50.0.0.1"), 4000), [&](boost::system::error_code const& e3) {
+				if (e3) return;
+				c.async_read_some(asio::buffer(rbuf), [&](boost::system::error_code const& e4, std::size_t n) { if (!e4) got.assign(rbuf.data(), n); phase = 2; });
+			});
+		});
+	});
+	sim.run();
+	if (phase != 2) return 4;
+	if (got.find('O') != std::string::npos)
+	{
+		std::printf("[C05.fresh] the first read on the second connection returned %zu bytes, %zu of them from the FIRST connection (unread when the socket was closed)\n", got.size(), (std::size_t)std::count(got.begin(), got.end(), 'O'));
+		return 3;
+	}
+	return 0;
+}
+
 int main(int argc, char** argv)
 {
 	if (argc < 3) return 4;
 	std::string label = argv[2];
 	if (label.find("C12.deref") != std::string::npos || label.find("C12.vanish") != std::string::npos) return replay_drop_after_close();
 	if (label.find("C06.flight") != std::string::npos) return replay_flight();
+	if (label.find("C05.fresh") != std::string::npos) return replay_fresh();
 	return 4;
 }
